@@ -149,6 +149,15 @@ struct filter_iterator {
             filter_data_ = new_filter_data;
             own_filter_data_ = true;
             delete [] footprint;
+        } else if (!PyArray_ISCARRAY_RO(filter)) {
+            // filter_data_ is indexed in logical (C) order: copy filters which are not stored that way
+            T* new_filter_data = new T[filter_size];
+            typename numpy::aligned_array<T>::iterator fiter = filter_array.begin();
+            for (int i = 0; i != filter_size; ++i, ++fiter) {
+                new_filter_data[i] = *fiter;
+            }
+            filter_data_ = new_filter_data;
+            own_filter_data_ = true;
         }
 
         init_filter_iterator(PyArray_NDIM(filter), PyArray_DIMS(filter), size_,
